@@ -17,6 +17,7 @@ package main
 
 import (
 	"bytes"
+	"context"
 	"fmt"
 	"runtime"
 	"strconv"
@@ -27,8 +28,11 @@ import (
 
 	"github.com/spikeekips/mitum/base"
 	"github.com/spikeekips/mitum/isaac"
+	isaacdatabase "github.com/spikeekips/mitum/isaac/database"
 	isaacstates "github.com/spikeekips/mitum/isaac/states"
+	leveldbstorage "github.com/spikeekips/mitum/storage/leveldb"
 	"github.com/spikeekips/mitum/util"
+	"github.com/spikeekips/mitum/util/encoder"
 	"github.com/spikeekips/mitum/util/valuehash"
 	"verifharness/poolh"
 	"verifharness/vh"
@@ -67,6 +71,10 @@ type world struct {
 	pool     isaac.BallotPool // the real TempPool
 	gp       *gatedPool
 	bb       *isaacstates.DefaultBallotBroadcaster
+	rbb      *recBroadcaster // what States and the handlers are wired to: records the ballots handed to Broadcast
+	slog     []logEnt        // local ballots produced for voting / sending ("signed"), in order
+	remoteVP base.Voteproof  // ACCEPT voteproof instance of the remote nodes (carried by their ballots)
+	localVP  base.Voteproof  // the local node's own instance of the same voteproof
 	st       *isaacstates.States
 	mimic    func(base.Ballot)
 	mu       sync.Mutex
@@ -92,6 +100,40 @@ func (nullCtl) OnNew(isaacstates.StateType) bool                    { return tru
 func (nullCtl) OnWhenSetAllowConsensus(isaacstates.StateType, bool) {}
 func (nullCtl) OnEnter(_, _ isaacstates.StateType, _ bool) (int, isaacstates.StateType, isaacstates.StateType) {
 	return 0, "", ""
+}
+
+// recBroadcaster records every ballot handed to Broadcast (what the caller has signed or decided to reuse)
+// and delegates to the real DefaultBallotBroadcaster
+type recBroadcaster struct {
+	w     *world
+	inner *isaacstates.DefaultBallotBroadcaster
+}
+
+func (r *recBroadcaster) Broadcast(bl base.Ballot) error {
+	r.w.noteSigned(bl)
+	return r.inner.Broadcast(bl)
+}
+
+func (r *recBroadcaster) Ballot(point base.Point, stage base.Stage, sc bool) (base.Ballot, bool, error) {
+	return r.inner.Ballot(point, stage, sc)
+}
+
+// noteSigned: a ballot of the local node was produced for voting or sending; a driven thread producing the
+// same ballot again (vote, then broadcast) is noted once
+func (w *world) noteSigned(bl base.Ballot) {
+	if !bl.SignFact().Node().Equal(w.local.Address()) {
+		return
+	}
+	e := logEnt{Key: keyOfBallot(bl), Fact: w.fid(bl.SignFact().Fact().Hash()), Local: true}
+	if t := w.thread(); t != nil {
+		if t.noted != nil && *t.noted == e {
+			return
+		}
+		t.noted = &e
+	}
+	w.mu.Lock()
+	w.slog = append(w.slog, e)
+	w.mu.Unlock()
 }
 
 // gatedPool wraps the real pool: the first Ballot() of a driven thread is bracketed by two gates
@@ -130,6 +172,7 @@ type thread struct {
 	done    chan struct{}
 	looked  bool
 	found   bool
+	noted   *logEnt
 }
 
 func (w *world) thread() *thread {
@@ -181,8 +224,34 @@ func newWorld(seed uint64) *world {
 	for i := 1; i <= 3; i++ {
 		w.nodes = append(w.nodes, base.NewBaseLocalNode(base.DummyNodeHint, poolh.Key(seed, i), poolh.Addr(i)))
 	}
-	p, _ := poolh.NewPool()
+	encs, enc := poolh.Encoders()
+	for _, d := range []encoder.DecodeDetail{
+		{Hint: isaac.INITVoteproofHint, Instance: isaac.INITVoteproof{}},
+		{Hint: isaac.ACCEPTVoteproofHint, Instance: isaac.ACCEPTVoteproof{}},
+	} {
+		if err := encs.AddDetail(d); err != nil {
+			panic(err)
+		}
+	}
+	p, err := isaacdatabase.NewTempPool(leveldbstorage.NewMemStorage(), encs, enc, 0)
+	if err != nil {
+		panic(err)
+	}
 	w.pool = p
+	// every node builds the ACCEPT voteproof of the previous block from its own ballotbox: same majority,
+	// another instance (voteproof ids are per instance)
+	mkvp := func() base.Voteproof {
+		prevpoint := base.RawPoint(32, 0)
+		afact := isaac.NewACCEPTBallotFact(prevpoint, valuehash.NewSHA256([]byte("c08-pr-32")), valuehash.NewSHA256([]byte("c08-block-32")), nil)
+		asf := isaac.NewACCEPTBallotSignFact(afact)
+		if err := asf.NodeSign(w.nodes[0].Privatekey(), netID, w.nodes[0].Address()); err != nil {
+			panic(err)
+		}
+		vp := isaac.NewACCEPTVoteproof(prevpoint)
+		vp.SetMajority(afact).SetSignFacts([]base.BallotSignFact{asf}).SetThreshold(base.Threshold(100)).Finish()
+		return vp
+	}
+	w.remoteVP, w.localVP = mkvp(), mkvp()
 	w.gp = &gatedPool{w: w, real: p}
 	w.bb = isaacstates.NewDefaultBallotBroadcaster(w.local.Address(), w.gp, func(bl base.Ballot) error {
 		w.gate("bcast")
@@ -195,7 +264,8 @@ func newWorld(seed uint64) *world {
 	})
 	args := isaacstates.NewStatesArgs()
 	args.AllowConsensus = true
-	args.BallotBroadcaster = w.bb
+	w.rbb = &recBroadcaster{w: w, inner: w.bb}
+	args.BallotBroadcaster = w.rbb
 	args.IsInSyncSourcePoolFunc = func(a base.Address) bool {
 		for _, n := range w.nodes {
 			if n.Address().Equal(a) {
@@ -204,9 +274,9 @@ func newWorld(seed uint64) *world {
 		}
 		return false
 	}
-	st, err := isaacstates.NewStates(netID, w.local, args)
-	if err != nil {
-		panic(err)
+	st, serr := isaacstates.NewStates(netID, w.local, args)
+	if serr != nil {
+		panic(serr)
 	}
 	for _, s := range []isaacstates.StateType{isaacstates.StateStopped, isaacstates.StateBooting, isaacstates.StateSyncing, isaacstates.StateBroken} {
 		st.SetHandler(s, isaacstates.VerifNewStubHandler(s, nullCtl{}))
@@ -241,7 +311,28 @@ func (w *world) ballot(k keyT, f uint64, node base.LocalNode) base.Ballot {
 	w.mu.Lock()
 	w.factID[fact.Hash().String()] = f
 	w.mu.Unlock()
-	return isaac.NewINITBallot(nil, sf, nil)
+	vp := w.remoteVP
+	if node.Address().Equal(w.local.Address()) {
+		vp = w.localVP
+	}
+	return isaac.NewINITBallot(vp, sf, nil)
+}
+
+func prevOf(f uint64) util.Hash { return valuehash.NewSHA256([]byte(fmt.Sprintf("c08-prev-%d", f))) }
+
+// handlerFor returns a bare real baseBallotHandler whose proposal selection yields the proposal that makes
+// the INIT fact number f for key k (registered), should the handler sign a new ballot
+func (w *world) handlerFor(k keyT, f uint64) *isaacstates.VerifBallotHandler {
+	pr := isaac.NewProposalSignFact(isaac.NewProposalFact(k.point(), w.local.Address(), prevOf(f), nil))
+	fact := isaac.NewINITBallotFact(k.point(), prevOf(f), pr.Fact().Hash(), nil)
+	w.mu.Lock()
+	w.factID[fact.Hash().String()] = f
+	w.mu.Unlock()
+	return isaacstates.VerifNewBallotHandler(netID, w.local, w.rbb,
+		func(context.Context, base.Point, util.Hash, time.Duration) (base.ProposalSignFact, error) {
+			return pr, nil
+		},
+		func(bl base.Ballot) (bool, error) { w.noteSigned(bl); return true, nil })
 }
 
 // ---------------------------------------------------------------- threads of mode A
@@ -254,10 +345,14 @@ type threadSpec struct {
 }
 
 func (ts threadSpec) steps() int {
-	if ts.Kind == "mimic" {
+	switch ts.Kind {
+	case "handler":
+		return 4
+	case "mimic":
 		return 3
+	default:
+		return 2
 	}
-	return 2
 }
 
 type stepObs struct {
@@ -266,6 +361,7 @@ type stepObs struct {
 	Found  *bool    `json:"found,omitempty"`
 	Pool   []int64  `json:"pool"` // fact held for each watched key (-1 none)
 	Log    []logEnt `json:"log"`
+	Signed []logEnt `json:"signed"`
 }
 
 func (w *world) poolFact(k keyT) int64 {
@@ -335,12 +431,22 @@ func runSchedule(res *vh.Result, cases *vh.Cases, seed uint64, specs []threadSpe
 		go func() {
 			w.threads.Store(goid(), t)
 			defer close(t.done)
-			if ts.Kind == "mimic" {
+			switch ts.Kind {
+			case "mimic":
 				w.mimic(bl)
-			} else {
+			case "handler": // the consensus handler prepares its INIT ballot for the point, votes it, broadcasts it
+				h := w.handlerFor(ts.Key, ts.Fact)
+				hbl, err := h.MakeINITBallot(context.Background(), ts.Key.point(), prevOf(ts.Fact), w.localVP)
+				if err != nil {
+					panic(err)
+				}
+				_, _ = h.Vote(hbl)
+				w.gate("set")
+				_ = w.rbb.Broadcast(hbl)
+			default:
 				t.looked = true // no gated lookup on this path
 				w.gate("set")
-				_ = w.bb.Broadcast(bl)
+				_ = w.rbb.Broadcast(bl)
 			}
 		}()
 	}
@@ -389,10 +495,15 @@ func runSchedule(res *vh.Result, cases *vh.Cases, seed uint64, specs []threadSpe
 			ob.Found = &f
 			coq = fmt.Sprintf("ALookup %s %s", tid, vh.N(ts.Key.id()))
 		case "looked", "set":
-			// the region sign + set under bb.l has run (or the delivery returned because the pool had a ballot)
-			if gateName == "looked" && ths[i].found {
-				coq = "" // the delivery ends here: no model step
-			} else {
+			switch {
+			case ts.Kind == "handler" && gateName == "looked":
+				coq = fmt.Sprintf("APrepare %s %s %s", tid, vh.N(ts.Key.id()), vh.N(ts.Fact)) // make (reuse or sign) + vote
+			case ts.Kind == "handler":
+				coq = fmt.Sprintf("ASetPrepared %s", tid)
+			case gateName == "looked" && ths[i].found:
+				coq = "" // the mimic delivery ends here (the pool had a ballot): no model step
+			default:
+				// the region sign + set under bb.l has run
 				coq = fmt.Sprintf("ASet %s (mkB %s %s %s)", tid, vh.N(ts.Key.id()), vh.N(ts.Fact), vh.Bool(ts.Kind != "foreign"))
 			}
 		case "bcast":
@@ -403,8 +514,16 @@ func runSchedule(res *vh.Result, cases *vh.Cases, seed uint64, specs []threadSpe
 		}
 		w.mu.Lock()
 		ob.Log = append([]logEnt(nil), w.blog...)
+		ob.Signed = append([]logEnt(nil), w.slog...)
 		w.mu.Unlock()
 		obs = append(obs, ob)
+		// oracle on what is SIGNED: a prepare path (handler, mimic) whose lookup found a pooled ballot for the
+		// key must not produce another fact for it
+		if ts.Kind == "handler" && gateName == "looked" && ths[i].found && ths[i].noted != nil {
+			if pf := w.poolFact(ts.Key); pf >= 0 && uint64(pf) != ths[i].noted.Fact {
+				res.Fail("signed-second-fact-after-pooled", fmt.Sprintf("thread %d (%s): the pool held fact %d for key %d at its lookup, it signed and voted fact %d", i, ts.Kind, pf, ts.Key.id(), ths[i].noted.Fact), rp)
+			}
+		}
 		if coq != "" {
 			coqSteps = append(coqSteps, coq)
 			look := "None"
@@ -426,7 +545,11 @@ func runSchedule(res *vh.Result, cases *vh.Cases, seed uint64, specs []threadSpe
 			for j, e := range ob.Log {
 				lg[j] = vh.Tuple(vh.N(e.Key), vh.N(e.Fact), vh.Bool(e.Local))
 			}
-			coqObs = append(coqObs, vh.Tuple(look, vh.List(pl), vh.List(lg)))
+			sg := make([]string, len(ob.Signed))
+			for j, e := range ob.Signed {
+				sg[j] = vh.Tuple(vh.N(e.Key), vh.N(e.Fact))
+			}
+			coqObs = append(coqObs, vh.Tuple(look, vh.List(pl), vh.List(lg), vh.List(sg)))
 		}
 	}
 	// let unfinished threads run to completion (not part of the compared schedule)
@@ -563,6 +686,10 @@ func main() {
 	k0 := keyT{H: 33, Round: 0}
 	k1 := keyT{H: 33, Round: 1}
 	k0sc := keyT{H: 33, Round: 0, SC: true}
+	// syncing: the INIT ballot of a sync source for the point is mimicked (and pooled); then, in consensus, the
+	// handler prepares its own INIT ballot for the same point from its own instance of the voteproof
+	runSchedule(res, cases, o.Seed, []threadSpec{{"mimic", k0, 100, 0}, {"handler", k0, 200, 0}}, []int{0, 0, 0, 1, 1, 1, 1}, "corpus")
+	runSchedule(res, cases, o.Seed, []threadSpec{{"handler", k0, 100, 0}, {"handler", k0, 200, 0}}, []int{0, 0, 0, 0, 1, 1, 1, 1}, "corpus")
 	// the witness of the theorem C08_ignore_set_result_refuted, always first
 	runSchedule(res, cases, o.Seed, []threadSpec{{"mimic", k0, 100, 0}, {"mimic", k0, 200, 1}}, []int{0, 1, 0, 1, 0, 1}, "corpus")
 	pairs := [][]threadSpec{
@@ -575,6 +702,10 @@ func main() {
 		{{"direct", k0, 100, 0}, {"direct", k0, 100, 0}},
 		{{"direct", k0, 100, 0}, {"foreign", k0, 200, 2}},
 		{{"mimic", k0sc, 100, 0}, {"direct", k0sc, 200, 0}},
+		{{"mimic", k0, 100, 0}, {"handler", k0, 200, 0}},
+		{{"handler", k0, 100, 0}, {"handler", k0, 200, 0}},
+		{{"handler", k0, 100, 0}, {"direct", k0, 200, 0}},
+		{{"handler", k0, 100, 0}, {"mimic", k1, 200, 1}},
 	}
 	for _, p := range pairs {
 		for _, sch := range interleavings([]int{p[0].steps(), p[1].steps()}) {
@@ -582,13 +713,16 @@ func main() {
 		}
 	}
 	n3 := o.Pick(600, 12000)
-	kinds := []string{"mimic", "mimic", "mimic", "direct", "direct", "foreign"}
+	kinds := []string{"mimic", "mimic", "mimic", "direct", "direct", "foreign", "handler", "handler"}
 	ks := []keyT{k0, k0, k0, k1, k0sc}
 	for i := 0; i < n3; i++ {
 		specs := make([]threadSpec, 3)
 		counts := make([]int, 3)
 		for j := range specs {
 			specs[j] = threadSpec{Kind: kinds[r.Intn(len(kinds))], Key: ks[r.Intn(len(ks))], Fact: uint64(100 * (1 + r.Intn(3))), Src: r.Intn(3)}
+			if specs[j].Kind == "handler" {
+				specs[j].Key.SC = false // makeINITBallot prepares the plain INIT ballot of the point
+			}
 			counts[j] = specs[j].steps()
 		}
 		var sch []int
